@@ -16,13 +16,20 @@ import EEM.Model.Resample
 namespace EEM.Model.ResampleMin
 open EEM.Model.Resample
 
-/-- the spread value carried by minute `m`: that of the reading whose interval `[t0, t1)` contains `m`
-(`asfreq(method="ffill")` repeats a reading — NaN included — up to the next timestamp) -/
-def rateAt : List Period → Int → Option Rat
+/-- what minute `m` carries after `asfreq("1 Min", method="ffill")`: `f` of the reading whose interval `[t0, t1)` contains `m`
+(a reading — NaN included — is repeated up to the next timestamp) -/
+def valAt (f : Period → Option Rat) : List Period → Int → Option Rat
   | [], _ => none
-  | p :: rest, m =>
-    if p.t0 ≤ m ∧ m < p.t1 then p.v.map fun v => v / ((p.t1 - p.t0 : Int) : Rat)
-    else rateAt rest m
+  | p :: rest, m => if p.t0 ≤ m ∧ m < p.t1 then f p else valAt f rest m
+
+/-- cumulative series: `series * spread_factor`, the reading divided by the minutes of its interval -/
+def spread (p : Period) : Option Rat := p.v.map fun v => v / ((p.t1 - p.t0 : Int) : Rat)
+
+/-- the spread value carried by minute `m` -/
+def rateAt (ps : List Period) (m : Int) : Option Rat := valAt spread ps m
+
+/-- instantaneous series (temperature): the reading itself is repeated -/
+def heldAt (ps : List Period) (m : Int) : Option Rat := valAt (·.v) ps m
 
 /-- the minutes `d0, d0+1, …` (`n` of them) -/
 def minutesFrom (d0 : Int) : Nat → List Int
@@ -48,6 +55,20 @@ def downsampleDayMin (ps : List Period) (d0 d1 : Int) : Option Rat :=
 /-- the sub-daily pipeline of the daily data class, minute by minute -/
 def subDailyMin (reads : List (Int × Option Rat)) (bounds : List Int) : List (Option Rat) :=
   (days bounds).map fun d => downsampleDayMin (periods (reads.filter fun r => r.2.isSome)) d.1 d.2
+
+/-- `resample("D").mean()` of an instantaneous series: the mean over the minutes of the day that carry a value -/
+def dayMeanMin (ps : List Period) (d0 d1 : Int) : Option Rat :=
+  let c := ((minutes d0 d1).filter fun m => (heldAt ps m).isSome).length
+  if c = 0 then none else some (((minutes d0 d1).map fun m => (heldAt ps m).getD 0).sum / (c : Rat))
+
+/-- the sub-hourly temperature path of the data classes on the minute grid: the day's mean when more than half of its minutes
+carry a value (the repaired code does not divide by the coverage) -/
+def instDayMin (ps : List Period) (d0 d1 : Int) : Option Rat :=
+  let c := ((minutes d0 d1).filter fun m => (heldAt ps m).isSome).length
+  if ((c : Nat) : Rat) / ((d1 - d0 : Int) : Rat) > 1 / 2 then dayMeanMin ps d0 d1 else none
+
+def instDailyMin (reads : List (Int × Option Rat)) (bounds : List Int) : List (Option Rat) :=
+  (days bounds).map fun d => instDayMin (periods reads) d.1 d.2
 
 /-- readings in time order with positive spacing: what `periods` yields for a sorted, duplicate-free index -/
 def Chained : List Period → Prop
